@@ -460,6 +460,10 @@ func genSenderFaults(armored bool) func(ctx *Ctx, emit func(Case)) {
 			fmt.Sprintf("g:0:%d,g:%d:5,c", mib, mib),
 			fmt.Sprintf("g:0:%d,c", 2*mib+1),
 			fmt.Sprintf("g:0:700000,g:700000:700000,c"),
+			// Writes AFTER a Write that emitted a block (and, under a fault, failed): the stream's own sticky error
+			// (`if es.err != nil { return 0, es.err }`) — found untouched by the mutation sweep
+			fmt.Sprintf("g:0:%d,g:%d:7,g:%d:0,c", mib+9, mib+9, mib+16),
+			fmt.Sprintf("g:0:%d,g:%d:%d,g:%d:3,c,c", mib+1, mib+1, mib, 2*mib+1),
 		}
 		cfgs := senderConfigs(r, false)
 		nbig := 0
